@@ -59,6 +59,11 @@ impl<R: Read + Seek> ReadBox<&mut R> for EdtsBox {
                 "edts box contains a box with a larger size than it",
             ));
         }
+        if s == 0 {
+            return Err(Error::InvalidData(
+                "edts box contains a box with size 0",
+            ));
+        }
 
         if let BoxType::ElstBox = name {
             let elst = ElstBox::read_box(reader, s)?;
